@@ -1,4 +1,5 @@
 import SdModel.Lemmas.Slots
+import SdModel.Lemmas.SlotsIter
 import Batteries.Data.List.Perm
 
 /-!
@@ -247,12 +248,57 @@ theorem history_from_iter {N : Nat} (hN : N ≤ 255) (l0 : List α) (hl : l0.len
   obtain ⟨s', h1, h2, h3⟩ := history ops hI l' (by rw [ha]; exact h)
   exact ⟨s0, s', h0, h1, h2, h3⟩
 
+/-! ### iteration: forward, backward, and any interleaving of the two
+
+`get_lookups` sorts the cells by logical index; the theorems say the table it builds lists the storage cells in
+logical order for EVERY layout satisfying the invariant, and that the owning iterator — which clears the cells it
+yields and moves two cursors — is a double-ended queue over the logical sequence. -/
+
+/-- borrowed iteration `(&chunk).into_iter()` yields the logical sequence -/
+theorem iter_spec {N : Nat} {s : AM α} (hI : Inv N s) : iter s = abs s := by
+  obtain ⟨l, hR⟩ := hI.exists_refines
+  rw [abs_of_refines hR]; exact iter_refines hI hR
+
+/-- consuming iteration from the front yields the logical sequence -/
+theorem intoIter_spec {N : Nat} {s : AM α} (hI : Inv N s) : intoList s = abs s := by
+  obtain ⟨l, hR⟩ := hI.exists_refines
+  rw [abs_of_refines hR]
+  have := drainFwd_spec hI hR (s.cells.length + 1) (intoIter s) 0 s.cnt (intoIter_inv hI hR)
+    (by have := hI.cnt_le; rw [hI.1]; omega)
+  simp only [intoList, this, List.drop_zero]
+  rw [hR.1, List.take_length]
+
+/-- **iterating a chunk from the back yields all remaining elements in reverse order** -/
+theorem intoIter_rev_spec {N : Nat} {s : AM α} (hI : Inv N s) : intoListRev false s = (abs s).reverse := by
+  obtain ⟨l, hR⟩ := hI.exists_refines
+  rw [abs_of_refines hR]
+  have := drainBack_spec hI hR (s.cells.length + 1) (intoIter s) 0 s.cnt (intoIter_inv hI hR)
+    (by have := hI.cnt_le; rw [hI.1]; omega)
+  simp only [intoListRev, this, List.drop_zero]
+  rw [hR.1, List.take_length]
+
+/-- any interleaving of `next` (`false`) and `next_back` (`true`) calls behaves as a double-ended queue over the
+logical sequence: fronts come out in order, backs in reverse order, nothing is yielded twice, and once the two
+cursors meet every further call returns `None` -/
+theorem intoIter_deque_spec {N : Nat} {s : AM α} (hI : Inv N s) (calls : List Bool) :
+    (intoIter s).run false calls = dq (abs s) 0 (abs s).length calls := by
+  obtain ⟨l, hR⟩ := hI.exists_refines
+  rw [abs_of_refines hR, ← hR.1]
+  exact run_spec hI hR calls (intoIter s) 0 s.cnt (intoIter_inv hI hR)
+
+/-- the pre-fix `next_back` (`rev_pos += 1`, finding B) yielded only the last element: kept as a witness -/
+theorem legacy_next_back_loses_elements :
+    intoListRev true (⟨[some (0, 10), some (1, 20), some (2, 30)], 3⟩ : AM Nat) = [30] ∧
+    intoListRev false (⟨[some (0, 10), some (1, 20), some (2, 30)], 3⟩ : AM Nat) = [30, 20, 10] := by decide
+
 /-! ### non-vacuity: a concrete non-canonical layout (holes, permuted cells) meets the hypotheses -/
 
 def exLayout : AM Nat := ⟨[some (1, 20), none, some (2, 30), some (0, 10), none], 3⟩
 example : invB 5 exLayout = true := by decide
 example : Inv 5 exLayout := invB_iff 5 exLayout (by decide)
 example : abs exLayout = [10, 20, 30] := by decide
+example : iter exLayout = [10, 20, 30] ∧ intoListRev false exLayout = [30, 20, 10] := by decide
+example : (intoIter exLayout).run false [true, false, true, false, true] = [some 30, some 10, some 20, none, none] := by decide
 example : runSpec 5 (abs exLayout) [.insert 1 15, .remove 0, .drain ⟨1, some 3⟩, .extend [7, 8]] = some [15, 7, 8] := by decide
 
 end C10
